@@ -1087,15 +1087,20 @@ impl<'a> Model<'a> {
                     });
 
             let mut array = None;
+            // A cell without a formula is moved as it is (re-entering its
+            // displayed text would re-interpret it, see `move_cell`)
+            let mut raw = None;
 
             match cell {
                 Cell::EmptyCell { .. }
                 | Cell::BooleanCell { .. }
                 | Cell::NumberCell { .. }
                 | Cell::ErrorCell { .. }
-                | Cell::SharedString { .. }
-                | Cell::CellFormula { .. } => {
-                    // This is a regular cell, we can just move it.
+                | Cell::SharedString { .. } => {
+                    raw = Some(cell.clone());
+                }
+                Cell::CellFormula { .. } => {
+                    // This is a regular formula cell, it is re-entered at the target.
                 }
                 Cell::SpillCell { .. } => {
                     // This the spill of an array formula. Because dynamic arrays spills have been deleted
@@ -1124,7 +1129,7 @@ impl<'a> Model<'a> {
                 }
             }
 
-            original_cells.push((r.row, formula_or_value, style_idx, array));
+            original_cells.push((r.row, formula_or_value, style_idx, array, raw));
             let ws = self.workbook.worksheet_mut(sheet)?;
             ws.remove_cell(r.row, column)?;
         }
@@ -1161,8 +1166,12 @@ impl<'a> Model<'a> {
                     .set_column_width_and_style(c + 1, w, h, s)?;
             }
         }
-        for (r, value, style_idx, array) in original_cells {
-            if let Some(a) = array {
+        for (r, value, style_idx, array, raw) in original_cells {
+            if let Some(cell) = raw {
+                self.workbook
+                    .worksheet_mut(sheet)?
+                    .update_cell(r, target_column, cell)?;
+            } else if let Some(a) = array {
                 self.set_user_array_formula(sheet, r, target_column, a.0, a.1, &value)?;
             } else {
                 self.set_user_input(sheet, r, target_column, value)?;
@@ -1232,15 +1241,20 @@ impl<'a> Model<'a> {
                 cell.get_localized_text(&self.workbook.shared_strings, self.locale, self.language)
             });
             let mut array = None;
+            // A cell without a formula is moved as it is (re-entering its
+            // displayed text would re-interpret it, see `move_cell`)
+            let mut raw = None;
 
             match cell {
                 Cell::EmptyCell { .. }
                 | Cell::BooleanCell { .. }
                 | Cell::NumberCell { .. }
                 | Cell::ErrorCell { .. }
-                | Cell::SharedString { .. }
-                | Cell::CellFormula { .. } => {
-                    // This is a regular cell, we can just move it.
+                | Cell::SharedString { .. } => {
+                    raw = Some(cell.clone());
+                }
+                Cell::CellFormula { .. } => {
+                    // This is a regular formula cell, it is re-entered at the target.
                 }
                 Cell::SpillCell { .. } => {
                     // This the spill of an array formula. Because dynamic arrays spills have been deleted
@@ -1268,7 +1282,7 @@ impl<'a> Model<'a> {
                     array = Some(*r);
                 }
             }
-            original_cells.push((*c, formula_or_value, style_idx, array));
+            original_cells.push((*c, formula_or_value, style_idx, array, raw));
             let ws = self.workbook.worksheet_mut(sheet)?;
             ws.remove_cell(row, *c)?;
         }
@@ -1287,8 +1301,12 @@ impl<'a> Model<'a> {
                 }
             }
         }
-        for (c, value, style_idx, array) in original_cells {
-            if let Some(array_range) = array {
+        for (c, value, style_idx, array, raw) in original_cells {
+            if let Some(cell) = raw {
+                self.workbook
+                    .worksheet_mut(sheet)?
+                    .update_cell(target_row, c, cell)?;
+            } else if let Some(array_range) = array {
                 self.set_user_array_formula(
                     sheet,
                     target_row,
